@@ -94,7 +94,7 @@ Print Assumptions controllers_second_archs.
 (* ---- lifted to Parse, for the first alternative of a field ---- *)
 Lemma possi_err name q rel T : 
   name <> [] -> forallb namec name = true -> eqc (peek name) 36 = false ->
-  (match q with None => True | Some a => forallb mac (arch_string a) = true /\ parse_arch (arch_string a) = a end) ->
+  (match q with None => True | Some a => forallb mac (arch_string a) = true /\ parse_arch (arch_string a) = a /\ arch_ok (arch_string a) = true end) ->
   is_ws (peek T) = true ->
   evRes (fun f => controllers f (base name q) T) Err ->
   evRes (fun f => parse_possibility f rel (name ++ qual_text q ++ T)) Err.
@@ -117,10 +117,10 @@ Proof.
   change (c0 :: n0 ++ qual_text q ++ T) with ((c0 :: n0) ++ qual_text q ++ T).
   rewrite (possi_loop_name (c0 :: n0) g fresh rel _ Hc). cbn [p_name fresh app].
   destruct q as [a|].
-  - destruct Ha as [Hm Hrt]. destruct g as [|g]; [lia|]. cbn [qual_text app possi_loop peek].
+  - destruct Ha as (Hm&Hrt&Hok). destruct g as [|g]; [lia|]. cbn [qual_text app possi_loop peek].
     change (eqc (ch 58) 58) with true. cbv iota. unfold parse_multiarch. cbn [adv tl].
     assert (Hstop : multiarch_stop (peek T) = true) by (unfold multiarch_stop; rewrite Hw; now rewrite !orb_true_r).
-    rewrite (multiarch_word (arch_string a) [] _ Hm Hstop). cbn [app]. rewrite Hrt.
+    rewrite (multiarch_word (arch_string a) [] _ Hm Hstop). cbn [app]. rewrite (arch_named_ok _ _ Hok), Hrt.
     replace (set_arch (with_name fresh (c0 :: n0)) a) with (base (c0 :: n0) (Some a)) by reflexivity.
     apply Fin. lia.
   - cbn [qual_text app]. replace (with_name fresh (c0 :: n0)) with (base (c0 :: n0) None) by reflexivity.
@@ -129,7 +129,7 @@ Qed.
 
 Theorem parse_err_first name q T :
   name <> [] -> forallb namec name = true -> eqc (peek name) 36 = false ->
-  (match q with None => True | Some a => forallb mac (arch_string a) = true /\ parse_arch (arch_string a) = a end) ->
+  (match q with None => True | Some a => forallb mac (arch_string a) = true /\ parse_arch (arch_string a) = a /\ arch_ok (arch_string a) = true end) ->
   is_ws (peek T) = true ->
   evRes (fun f => controllers f (base name q) T) Err ->
   parse (name ++ qual_text q ++ T) = Err.
@@ -161,7 +161,7 @@ Qed.
 (* C04: "foo (>= 1) … (<< 2) …" and "foo [a] … [b] …" are rejected, whatever follows *)
 Theorem C04_reject_second_version name q cl w y v0 :
   name <> [] -> forallb namec name = true -> eqc (peek name) 36 = false ->
-  (match q with None => True | Some a => forallb mac (arch_string a) = true /\ parse_arch (arch_string a) = a end) ->
+  (match q with None => True | Some a => forallb mac (arch_string a) = true /\ parse_arch (arch_string a) = a /\ arch_ok (arch_string a) = true end) ->
   clauses_ok (base name q) cl -> cl <> [] -> p_ver (result name q cl) = Some v0 -> all_ws w ->
   parse (name ++ qual_text q ++ clauses_text cl ++ w ++ ch 40 :: y) = Err.
 Proof.
@@ -171,7 +171,7 @@ Proof.
 Qed.
 Theorem C04_reject_second_archs name q cl w y :
   name <> [] -> forallb namec name = true -> eqc (peek name) 36 = false ->
-  (match q with None => True | Some a => forallb mac (arch_string a) = true /\ parse_arch (arch_string a) = a end) ->
+  (match q with None => True | Some a => forallb mac (arch_string a) = true /\ parse_arch (arch_string a) = a /\ arch_ok (arch_string a) = true end) ->
   clauses_ok (base name q) cl -> cl <> [] -> a_list (archs_of (result name q cl)) <> [] -> all_ws w ->
   parse (name ++ qual_text q ++ clauses_text cl ++ w ++ ch 91 :: y) = Err.
 Proof.
